@@ -349,6 +349,9 @@ func c04PartA(r *core.Run, agentBin string, md *fakes.Metadata) {
 					if rem < time.Second {
 						rem = time.Second
 					}
+					if missing > 0 {
+						rem = 300 * time.Millisecond // something is lost already: do not sit out the bound for every further ID
+					}
 					if _, ok := px.Wait(id, rem); !ok {
 						missing++
 					}
@@ -426,6 +429,8 @@ func c04PartB(r *core.Run, serverBin string) {
 		cfgs = append(cfgs, cfg{16, m, r.Pick(6, 20)})
 	}
 	cfgs = append(cfgs, cfg{64, 4, r.Pick(4, 10)}, cfg{64, 8, r.Pick(4, 10)})
+	// more than 100 requests queued before the first poll arrives (pollers start late)
+	cfgs = append(cfgs, cfg{170, 1, 1}, cfg{230, 3, 1})
 	if !r.Quick() {
 		for i := 0; i < 54; i++ {
 			cfgs = append(cfgs, cfg{[]int{4, 16, 32, 64}[i%4], []int{1, 2, 3, 4, 8, 16}[i%6], 10})
@@ -450,6 +455,9 @@ func c04PartB(r *core.Run, serverBin string) {
 			pwg.Add(1)
 			go func(p int) {
 				defer pwg.Done()
+				if c.clients > 100 {
+					time.Sleep(400 * time.Millisecond) // let the whole burst queue up first
+				}
 				for {
 					select {
 					case <-stop:
@@ -576,7 +584,8 @@ func c04PartB(r *core.Run, serverBin string) {
 				tok := fmt.Sprintf("s%dB%dk%di%d", r.Seed, ci, k, i)
 				if n := len(perTok[tok]); n != 1 {
 					if n == 0 && !okTok[tok] {
-						r.Inconclusive("client " + tok + " got no response and no ID was listed for it")
+						// the client stayed connected for its whole 30 s wait while pollers kept polling
+						r.Violate("C04:client-request-never-listed", fmt.Sprintf("%d clients / %d pollers: client request %s was waiting but its ID never appeared in any pending-list reply", c.clients, c.pollers, tok), nil, nil)
 						continue
 					}
 					r.Violate("C04:client-request-listed-not-exactly-once", fmt.Sprintf("client request %s corresponds to %d listed IDs %v", tok, n, perTok[tok]), nil, nil)
